@@ -177,4 +177,33 @@ def run(rd, emit, log, enum_values, ti_default):
     if ex is None: log.append('C17: ServiceNameComposer::ParseName not recognised')
     body += "(* true = exactly two '!'-separated parts are required; false = at least two, the rest is dropped *)\n"
     body += 'Definition f_cw_service_name_exact : option bool := %s.\n' % ('Some ' + ex if ex else 'None')
+    # ---- ConfigObjectUtility::CreateObject: which registry the "already exists" pre-check consults
+    cu = rd('lib/remote/configobjectutility.cpp')
+    b = fn_body(cu, r'bool\s+ConfigObjectUtility::CreateObject\s*\(')
+    pre = None
+    if b:
+        m = re.search(r'already exists', b)
+        if m:
+            head = b[:m.start()]
+            i = head.rfind('if (')
+            cond = head[i:] if i >= 0 else ''
+            # the condition of the innermost `if` in front of the error message
+            if re.search(r'GetObject\s*\(\s*fullName\s*\)', cond) and 'ConfigItem::' not in cond:
+                pre = 'true'
+            elif re.search(r'ConfigItem::GetByTypeAndName\s*\(', cond) and 'GetObject' not in cond:
+                pre = 'false'
+    if pre is None: log.append('C17: CreateObject duplicate pre-check not recognised')
+    body += '(* true = the "already exists" pre-check asks the OBJECT registry (ConfigType::GetObject(fullName)); false = the config item registry *)\n'
+    body += 'Definition f_cw_precheck_by_object : option bool := %s.\n' % ('Some ' + pre if pre else 'None')
+    # ---- DeleteObjectHelper: the recursive helper itself removes the file of every _api object it unregisters
+    b = fn_body(cu, r'bool\s+ConfigObjectUtility::DeleteObjectHelper\s*\(')
+    b2 = fn_body(cu, r'bool\s+ConfigObjectUtility::DeleteObject\s*\(')
+    rm = None
+    rx = r'Utility::Remove\s*\(\s*GetExistingObjectConfigPath\s*\(\s*object\s*\)\s*\)'
+    if b and b2:
+        if re.search(rx, b) and not re.search(rx, b2): rm = 'true'
+        elif re.search(rx, b2) and not re.search(rx, b): rm = 'false'
+    if rm is None: log.append('C17: file removal in DeleteObjectHelper not recognised')
+    body += '(* true = DeleteObjectHelper (the recursive part) removes the file of each _api object; false = only DeleteObject (top level) does *)\n'
+    body += 'Definition f_cw_delete_helper_removes_file : option bool := %s.\n' % ('Some ' + rm if rm else 'None')
     emit('Facts_c17.v', body)
